@@ -7,6 +7,7 @@ from .. import typegen as TG
 
 ID = "C18"
 LEAN_MODULE = "Ucfg.Props.C18"
+LEVEL_TEXT = 'jsonFlavour keeps shape and non-numeric leaves; integers below 2^53 keep their value through every numeric read (exact representability lemma decode_ofInt), with 2^53+1 as the boundary example. PARTIAL: decoders are third-party (exercised through six loaders per text, compared with the model per flavour); source metadata decided on the implementation.'
 CORRESPONDENCE = ("Frontends.jsonFlavour + Normalize.newFrom + Eval.viewE + Unpack.unpack ~ {yaml,json,hjson}.NewConfig / NewConfigWithFile "
                   "followed by generic and typed Unpack")
 RULE = ("JSON-expressible documents rendered as one JSON text (valid YAML flow syntax and valid HJSON): (a) random trees (depth <= 5) over "
